@@ -664,6 +664,18 @@ def async_(
             tokenizer,
         )
     if command[1].string == "for":
+        if len(command) < 3:
+            raise JMCSyntaxException(
+                "Expected (", command[1], tokenizer, col_length=True
+            )
+        if command[2].token_type != TokenType.PAREN_ROUND:
+            raise JMCSyntaxException(
+                "Expected (", command[2], tokenizer, display_col_length=False
+            )
+        if len(command) < 4:
+            raise JMCSyntaxException(
+                "Expected {", command[2], tokenizer, col_length=True
+            )
         if len(command) == 4:
             raise JMCSyntaxException(
                 "Expected delay",
